@@ -2,30 +2,30 @@
 // failed: assertion failed: actual == expected @ capacity_proofs.rs:70
 // run: /verif/check --replay /verif/replays/C06/c06_cap_kernel_single_dim.rs
 #[test]
-fn kani_concrete_playback_c06_cap_kernel_single_dim_2567809127075630156() {
+fn kani_concrete_playback_c06_cap_kernel_single_dim_6719595651198085160() {
     let concrete_vals: Vec<Vec<u8>> = vec![
-        // -2207
-        vec![97, 247],
-        // -23233
-        vec![63, 165],
-        // 493
-        vec![237, 1],
-        // 1741
-        vec![205, 6],
-        // -16192
-        vec![192, 192],
-        // 4626
-        vec![18, 18],
-        // 12850
-        vec![50, 50],
-        // -1047
-        vec![233, 251],
-        // 5354
-        vec![234, 20],
-        // -13279
-        vec![33, 204],
-        // 26238
-        vec![126, 102],
+        // 0
+        vec![0, 0],
+        // 0
+        vec![0, 0],
+        // 0
+        vec![0, 0],
+        // 1
+        vec![1, 0],
+        // 32767
+        vec![255, 127],
+        // 32767
+        vec![255, 127],
+        // 32510
+        vec![254, 126],
+        // 0
+        vec![0, 0],
+        // -32767
+        vec![1, 128],
+        // -32768
+        vec![0, 128],
+        // 1
+        vec![1, 0],
         // 0
         vec![0],
     ];
@@ -64,32 +64,63 @@ fn kani_concrete_playback_c06_cap_kernel_single_dim_11315683305282844155() {
 }
 
 #[test]
-fn kani_concrete_playback_c06_cap_kernel_single_dim_11576661028084119404() {
+fn kani_concrete_playback_c06_cap_kernel_single_dim_10835528784923574438() {
     let concrete_vals: Vec<Vec<u8>> = vec![
-        // -244
-        vec![12, 255],
-        // 32511
-        vec![255, 126],
-        // 0
-        vec![0, 0],
-        // -2
-        vec![254, 255],
-        // 0
-        vec![0, 0],
+        // -15
+        vec![241, 255],
         // -1
         vec![255, 255],
-        // 257
-        vec![1, 1],
-        // -500
-        vec![12, 254],
-        // 243
-        vec![243, 0],
-        // -254
-        vec![2, 255],
-        // -2
-        vec![254, 255],
-        // 0
-        vec![0],
+        // -1
+        vec![255, 255],
+        // -32767
+        vec![1, 128],
+        // -32768
+        vec![0, 128],
+        // -32768
+        vec![0, 128],
+        // -258
+        vec![254, 254],
+        // -1
+        vec![255, 255],
+        // -7
+        vec![249, 255],
+        // -15
+        vec![241, 255],
+        // -32759
+        vec![9, 128],
+        // 1
+        vec![1],
+    ];
+    kani::concrete_playback_run(concrete_vals, c06_cap_kernel_single_dim);
+}
+
+#[test]
+fn kani_concrete_playback_c06_cap_kernel_single_dim_4906597883175476364() {
+    let concrete_vals: Vec<Vec<u8>> = vec![
+        // 32175
+        vec![175, 125],
+        // 30861
+        vec![141, 120],
+        // 21792
+        vec![32, 85],
+        // 5060
+        vec![196, 19],
+        // -3470
+        vec![114, 242],
+        // -8225
+        vec![223, 223],
+        // -17605
+        vec![59, 187],
+        // 14195
+        vec![115, 55],
+        // -13269
+        vec![43, 204],
+        // -286
+        vec![226, 254],
+        // 31825
+        vec![81, 124],
+        // 1
+        vec![1],
     ];
     kani::concrete_playback_run(concrete_vals, c06_cap_kernel_single_dim);
 }
